@@ -365,9 +365,10 @@ impl Malformed {
                         }
                     }
                     for (clause, detail) in vs {
-                        cr.viols.push(Viol { prop: "C13".into(), clause: clause.into(), detail: format!("before op {}: {}", i, detail), step: i });
+                        let prop = if clause == "alloc_on_error_path" { "C09" } else { "C13" };
+                        cr.viols.push(Viol { prop: prop.into(), clause: clause.into(), detail: format!("before op {}: {}", i, detail), step: i });
                     }
-                    if !cr.viols.is_empty() {
+                    if cr.viols.iter().any(|v| v.prop == "C13") {
                         break 'outer;
                     }
                 }
